@@ -352,6 +352,10 @@ impl Gen {
       0..=2 => {
         let t = self.text(self.cfg.max_text);
         let sub = self.pick(&["str", "rawstr", "buf", "rawbuf"]);
+        // the borrowed-static constructors
+        if matches!(sub, "str" | "rawstr") && self.rng.gen_bool(0.2) {
+          return json!({"k": "raw", "sub": sub, "b": name_json(&t), "st": true});
+        }
         json!({"k": "raw", "sub": sub, "b": name_json(&t)})
       }
       3 if self.cfg.binary => {
@@ -662,7 +666,19 @@ fn mutate(tree: &mut Value, g: &mut Gen) -> bool {
         return true;
       }
       let i = g.rng.gen_range(0..repls.len());
-      match g.rng.gen_range(0..6) {
+      let kind = g.rng.gen_range(0..6);
+      if matches!(kind, 1 | 2) {
+        // a range edit only means something to the range-taking calls
+        let api = match repls[i]["api"].as_str() {
+          Some("insert") => "replace",
+          Some("insert_enf") => "replace_enf",
+          Some(other) => other,
+          None => "replace_enf",
+        }
+        .to_string();
+        repls[i]["api"] = json!(api);
+      }
+      match kind {
         0 => {
           repls.remove(i);
         }
@@ -1072,7 +1088,8 @@ pub fn generate(kind: &str, seed: u64, count: usize, out: &str) {
           continue;
         }
         let pair = |r: u64| vec![obs("source", r), obs("buffer", r), map(r, true), map(r, false),
-                                 json!({"op": "hash", "r": r, "h": "twox"})];
+                                 json!({"op": "hash", "r": r, "h": "twox"}),
+                                 json!({"op": "hash", "r": r, "h": "feed"})];
         let eq = |a: u64, b: u64| json!({"op": "eq", "a": a, "b": b});
         let mut v = vec![json!({"op": "build", "dst": 0, "tree": t}), json!({"op": "build", "dst": 1, "tree": e}),
                          eq(0, 1), eq(1, 0)];
